@@ -848,7 +848,9 @@ func c07GenAgent(g *Gen) {
 		scens = append(scens,
 			scen{"agent-many-short-lines", bytes.Repeat([]byte("x\n"), 20000)},
 			scen{"agent-huge-message", bad(func(r *c07Rec) { r.Msg = strings.Repeat("m", 5<<20) })},
-			scen{"agent-no-newline-4mb", bytes.Repeat([]byte("z"), 9<<20)},
+			// one 9 MiB line (the reader's overflow paths); it ends with a newline: without one the sentinel that
+			// follows would be the tail of the garbage line, not a record
+			scen{"agent-line-9mb", append(bytes.Repeat([]byte("z"), 9<<20), '\n')},
 		)
 	}
 	for _, sc := range scens {
